@@ -189,6 +189,8 @@ class Repo:
                     self.funcs[f.qname] = f
         elif isinstance(n, ast.Assign) and len(n.targets) == 1 and isinstance(n.targets[0], ast.Name):
             self.consts[m][n.targets[0].id] = n.value
+        elif isinstance(n, ast.AnnAssign) and isinstance(n.target, ast.Name) and n.value is not None:
+            self.consts[m][n.target.id] = n.value          # NAME: T = value
         elif isinstance(n, (ast.If, ast.Try)):
             for b in n.body:
                 self._top(m, b)
